@@ -8,7 +8,7 @@ drv_ribbit starts the real cascette-ribbit server per program (Server::new(..).r
 executes the steps with the project's own clients (RibbitClient v1/v2, TactClient) and raw sockets;
 T_Ribbit judges every event (binding T).
 """
-import datetime, glob, json, os, re, threading, time
+import datetime, glob, json, os, re, time
 from . import lib
 
 os.environ["LC_ALL"] = "C.UTF-8"     # the grid contains non-ASCII strings: TLC must read and print UTF-8
@@ -134,23 +134,41 @@ def model_check(ctx, kd):
         raise lib.ToolError(f"model-level anti-vacuity failed: {teeth}")
 
 
+STATIC = ("unknown", "fields", "newest", "sample", "slow", "flood")
+
+
 def generate(ctx, family, conc=False):
+    """family "static": one TLC run enumerates the programs of every static family; returns {family: (path, n)}."""
     cfg = mc_cfg(ctx, f"mc_{family}.cfg", family, conns="{1, 2}" if conc else "{}", tier=ctx.tier, seed=ctx.seed,
-                 nsample=0 if family != "sample" else (240 if ctx.quick else 6000),
+                 nsample=240 if ctx.quick else 6000,
                  init="ConcInit" if conc else "GenInit", next_="ConcNext" if conc else "GenNext",
-                 invariants=("Emit", "Graded") + (("GridDump",) if family == "unknown" else ()))
+                 invariants=("Emit", "Graded") + (() if conc else ("GridDump",)))
     progs = ctx.path(f"prog_{family}.ndjson")
     r = lib.tlc(ctx, MODULE_MC, cfg, tagged_out={"PROGRAM": progs}, timeout=1500)
     ctx.cov["states"] += r["distinct"]
     ctx.cov["transitions"] += r["generated"]
     n = r["counts"]["PROGRAM"]
-    ctx.stage("mc", family=family, distinct_states=r["distinct"], programs=n, wall_s=r["wall_s"])
-    if family == "unknown":
-        g = r["tagged"].get("GRID")
-        if not g:
-            raise lib.ToolError("MC_Ribbit did not print its grid")
-        grid_selfcheck(ctx, g[-1])
-    return progs, n
+    if conc:
+        ctx.stage("mc", family=family, distinct_states=r["distinct"], programs=n, wall_s=r["wall_s"])
+        return {family: (progs, n)}
+    g = r["tagged"].get("GRID")
+    if not g:
+        raise lib.ToolError("MC_Ribbit did not print its grid")
+    grid_selfcheck(ctx, g[-1])
+    outs = {f: open(ctx.path(f"prog_{f}.ndjson"), "w") for f in STATIC}
+    counts = {f: 0 for f in STATIC}
+    with open(progs) as f:
+        for line in f:
+            fam = json.loads(line)["fam"]
+            outs[fam].write(line)
+            counts[fam] += 1
+    for o in outs.values():
+        o.close()
+    os.remove(progs)
+    ctx.stage("mc", family=family, distinct_states=r["distinct"], programs=n, wall_s=r["wall_s"], **counts)
+    if any(c == 0 for c in counts.values()):
+        raise lib.ToolError(f"a program family is empty: {counts}")
+    return {f: (ctx.path(f"prog_{f}.ndjson"), counts[f]) for f in STATIC}
 
 
 def run_shards(ctx, progs, trace, extra, shards, timeout=1700):
@@ -323,25 +341,12 @@ def run(ctx):
     if ctx.replay:
         return replay(ctx, kd)
     total = distinct = 0
-    slow = {}
-
-    def slow_families():
-        # requests that are never terminated take the server's 10 s read time-out (and the 45 s the driver waits
-        # before it records "still open"): they run beside everything else
-        try:
-            for fam in ("slow", "flood"):
-                progs, n = generate(ctx, fam)
-                slow[fam] = (progs, n, execute(ctx, fam, progs, n))
-        except Exception as ex:      # re-raised in the main thread
-            slow["error"] = ex
-
-    th = threading.Thread(target=slow_families)
-    th.start()
     from concurrent.futures import ThreadPoolExecutor
     judging = ThreadPoolExecutor(max_workers=2)      # family k is judged while family k+1 is generated and executed
-    pending = []
+    waiting = ThreadPoolExecutor(max_workers=2)      # slow / flood: dominated by the server's 10 s read time-out and the
+    pending = []                                     # 45 s the driver waits before it records "still open"
 
-    def judged(fam, progs, trace):
+    def judged(fam, trace):
         v = judge_only(ctx, trace, fam, kd)
         if fam == "fields":
             selftest(ctx, trace, kd)
@@ -351,9 +356,10 @@ def run(ctx):
 
     try:
         model = judging.submit(model_check, ctx, kd)
-        fams = ["unknown", "fields", "newest", "conc", "sample"]
-        for fam in fams:
-            progs, n = generate(ctx, fam, conc=(fam == "conc"))
+        gen = generate(ctx, "static")
+        slow = {fam: waiting.submit(execute, ctx, fam, *gen[fam]) for fam in ("slow", "flood")}
+        for fam in ("unknown", "fields", "newest", "sample", "conc"):
+            progs, n = gen[fam] if fam != "conc" else generate(ctx, "conc", conc=True)["conc"]
             trace = execute(ctx, fam, progs, n)
             total += n
             distinct += lib.count_distinct(progs, key=lambda l: l if nontrivial(l) else "")[1]
@@ -361,20 +367,17 @@ def run(ctx):
                 ls = lib.read_lines(trace)[:4000]
                 s, e = lib.run_of_line(ls, min(len(ls) - 1, 900))
                 ctx.cov["samples"].append({"source": f"MC_Ribbit family={fam}", "trace": [json.loads(x) for x in ls[s:e]][:12]})
-            pending.append((fam, progs, trace, judging.submit(judged, fam, progs, trace)))
-        th.join()
-        if "error" in slow:
-            raise slow["error"]
+            pending.append((fam, trace, judging.submit(judged, fam, trace)))
         for fam in ("slow", "flood"):
-            progs, n, trace = slow[fam]
-            total += n
-            distinct += lib.count_distinct(progs)[1]
-            pending.append((fam, progs, trace, judging.submit(judge_only, ctx, trace, fam, kd)))
+            trace = slow[fam].result()
+            total += gen[fam][1]
+            distinct += lib.count_distinct(gen[fam][0])[1]
+            pending.append((fam, trace, judging.submit(judge_only, ctx, trace, fam, kd)))
         model.result()
-        for fam, progs, trace, fut in pending:
+        for fam, trace, fut in pending:
             conclude(ctx, fut.result(), trace, f"MC_Ribbit family={fam}")
     finally:
-        th.join()
+        waiting.shutdown(wait=True, cancel_futures=True)
         judging.shutdown(wait=True, cancel_futures=True)
     ctx.cov["traces_validated_against_impl"] = total
     ctx.cov["evaluations"] = total
